@@ -246,7 +246,7 @@ func (h *HyperLogLogRedis) computeHarmonicMean() (float64, error) {
 			local value = (-1)*tonumber(values[i])
 			hmean = hmean + 2^(value)
 		end
-		return hmean
+		return tostring(hmean)
 	`)
 	hmean, err := harmonicMeanScript.Run(
 		context.Background(),
